@@ -440,12 +440,20 @@ def v9ParseRecC (c : Config) : List TField → Nat → P Rec
   | nil => rfl
   | cons f fs ih => funext idx i; simp only [v9ParseRec, v9ParseRecC, ih]; rfl
 
-/-- `v9RecLoop` with the accumulator kept in reverse (cons instead of `acc ++ [r]`) -/
+/-- a record that does not decode leaves the input where it was: the `fold` of the model fails again on every remaining iteration -/
+theorem v9RecLoop_fail_fast (c : Config) (fs : List TField) (n : Nat) (i : Bytes) (acc : List Rec)
+    (h : v9ParseRec c fs 0 i = none) : v9RecLoop c fs n i acc = (acc, i) := by
+  induction n with
+  | zero => rfl
+  | succ n ih => simp only [v9RecLoop, h]; exact ih
+
+/-- `v9RecLoop` with the accumulator kept in reverse (cons instead of `acc ++ [r]`), STOPPING at the first record that does not
+    decode (as the Rust loop does since fix 4588be7; same result as going on, `v9RecLoop_fail_fast`) -/
 def v9RecLoopR (c : Config) (fs : List TField) : Nat → Bytes → List Rec → List Rec × Bytes
   | 0, i, acc => (acc.reverse, i)
   | n + 1, i, acc =>
     match v9ParseRec c fs 0 i with
-    | none => v9RecLoopR c fs n i acc
+    | none => (acc.reverse, i)
     | some (r, i') => v9RecLoopR c fs n i' (r :: acc)
 
 def v9RecLoopF (c : Config) (fs : List TField) (n : Nat) (i : Bytes) (acc : List Rec) : List Rec × Bytes :=
@@ -458,12 +466,11 @@ theorem v9RecLoopR_eq (c : Config) (fs : List TField) :
   | zero => intro i acc; rfl
   | succ n ih =>
     intro i acc
-    simp only [v9RecLoopR, v9RecLoop]
     cases h : v9ParseRec c fs 0 i with
-    | none => exact ih i acc
+    | none => simp only [v9RecLoopR, h]; exact (v9RecLoop_fail_fast c fs (n + 1) i acc.reverse h).symm
     | some x =>
       obtain ⟨r, i'⟩ := x
-      simp only [ih i' (r :: acc), List.reverse_cons]
+      simp only [v9RecLoopR, v9RecLoop, h, ih i' (r :: acc), List.reverse_cons]
 
 @[csimp] theorem v9RecLoop_eq : @v9RecLoop = @v9RecLoopF := by
   funext c fs n i acc
